@@ -230,6 +230,7 @@ class Inliner:
         self.static = set()
         self.generators = set()
         self.objclasses = {}       # unknown plain classes: name -> ClassDef
+        self.dissolved = set()
         self.objs = {}             # object locals of the host being processed: var -> class
         self.records = _record_types(tree, known)
         self._collect()
@@ -507,8 +508,83 @@ class Inliner:
                         return ast.copy_location(ast.Name(id=fmap[n.attr], ctx=n.ctx), n)
                     return n
             T().visit(fn)
+            self.dissolved.add(cname)
             done = True
         return done
+
+    # -- ``C(a, b)`` where C (introduced by the edit) only stores its arguments and defines
+    # __call__: the object is the closure  def c(x): <body of __call__ over a, b>
+    def _callable_objects(self, st, names):
+        pre = []
+        for call in [n for n in ast.walk(st) if isinstance(n, ast.Call)]:
+            if not (isinstance(call.func, ast.Name) and call.func.id in self.objclasses):
+                continue
+            cdef = self.objclasses[call.func.id]
+            meths = {x.name: x for x in cdef.body if isinstance(x, ast.FunctionDef)}
+            if set(meths) - {'__init__', '__call__'} or '__call__' not in meths:
+                continue
+            callm = meths['__call__']
+            if callm.decorator_list or callm.args.vararg or callm.args.kwarg or \
+                    not callm.args.args or (cdef.name, '__call__') not in self.methods:
+                continue
+            fields = {}
+            init = meths.get('__init__')
+            if init is not None:
+                env = self._bind(init, call, ast.Name(id='__self__', ctx=ast.Load())) \
+                    if (cdef.name, '__init__') in self.methods else None
+                if env is None:
+                    continue
+                me = init.args.args[0].arg
+                ok = True
+                for x in init.body:
+                    if _is_doc(x):
+                        continue
+                    if isinstance(x, ast.Assign) and len(x.targets) == 1 and \
+                            isinstance(x.targets[0], ast.Attribute) and \
+                            isinstance(x.targets[0].value, ast.Name) and x.targets[0].value.id == me \
+                            and isinstance(x.value, ast.Name) and x.value.id in env and \
+                            isinstance(env[x.value.id], ast.Name):
+                        fields[x.targets[0].attr] = env[x.value.id]
+                    else:
+                        ok = False
+                if not ok:
+                    continue
+            elif call.args or call.keywords:
+                continue
+            me = callm.args.args[0].arg
+            body = [copy.deepcopy(x) for x in callm.body if not _is_doc(x)]
+            bad = [False]
+
+            class T(ast.NodeTransformer):
+                def visit_Attribute(self, n):
+                    self.generic_visit(n)
+                    if isinstance(n.value, ast.Name) and n.value.id == me:
+                        if n.attr in fields and isinstance(n.ctx, ast.Load):
+                            return ast.copy_location(copy.deepcopy(fields[n.attr]), n)
+                        bad[0] = True
+                    return n
+
+                def visit_Name(self, n):
+                    if n.id == me:
+                        pass
+                    return n
+            body = [T().visit(x) for x in body]
+            if bad[0] or any(isinstance(n, ast.Name) and n.id == me for x in body for n in ast.walk(x)):
+                continue
+            nm = self._fresh(cdef.name.strip('_').lower() or 'closure', names)
+            args = copy.deepcopy(callm.args)
+            args.args = args.args[1:]
+            fd = ast.FunctionDef(name=nm, args=args, body=body or [ast.Pass()], decorator_list=[],
+                                 returns=None, type_comment=None)
+            ast.copy_location(fd, st)
+            for n in ast.walk(fd):
+                if not hasattr(n, 'lineno') and isinstance(n, (ast.stmt, ast.expr, ast.arg)):
+                    ast.copy_location(n, st)
+            pre.append(fd)
+            _replace_expr(st, call, ast.copy_location(ast.Name(id=nm, ctx=ast.Load()), call))
+            self.inlined.append((cdef.name, 'closure'))
+            self.dissolved.add(cdef.name)
+        return pre
 
     # -- expression-bodied helpers: ``def h(a): return <expr>`` is substituted wherever it is called
     def _expr_helpers(self, fn, host, hostname, stack):
@@ -616,6 +692,8 @@ class Inliner:
                 if got is not None:
                     return got
         pre = []
+        if self.objclasses and not isinstance(st, (ast.For, ast.While, ast.If, ast.With, ast.Try)):
+            pre.extend(self._callable_objects(st, names))
         for _ in range(12):
             site = self._find_site(st, host, stack)
             if site is None:
@@ -935,6 +1013,7 @@ class Inliner:
     def _drop_unused(self):
         """a helper all of whose uses were inlined is removed: its effects now belong to its callers"""
         helpers = {id(h): h for h in list(self.funcs.values()) + list(self.methods.values())}
+        inlined_names = {h for h, _host in self.inlined}
         refs = {}
 
         def scan(node, owner):
@@ -953,12 +1032,14 @@ class Inliner:
             out = []
             for st in body:
                 if isinstance(st, ast.ClassDef) and self.objclasses.get(st.name) is st and \
+                        st.name.startswith('_') and st.name in self.dissolved and \
                         not (refs.get(st.name, set()) - {st.name}) and not any(
                             refs.get(x.name, set()) - {x.name, st.name} for x in st.body
                             if isinstance(x, ast.FunctionDef) and not x.name.startswith('__')):
                     self.removed.append(st.name)
                     continue
-                if isinstance(st, ast.FunctionDef) and id(st) in helpers:
+                if isinstance(st, ast.FunctionDef) and id(st) in helpers and \
+                        st.name.startswith('_') and st.name in inlined_names:
                     if not (refs.get(st.name, set()) - {st.name}):
                         self.removed.append(st.name)
                         continue
